@@ -29,8 +29,38 @@ use versatiles_core::{
 /// between min and max zoom, DESIGN §8 F10 – not this property's subject)
 const TILES: [(u8, u32, u32); 8] = [(0, 0, 0), (1, 0, 0), (1, 1, 1), (2, 1, 2), (2, 3, 3), (3, 7, 0), (3, 0, 7), (3, 4, 5)];
 
-fn tiles_str() -> String {
-	TILES.iter().map(|(z, x, y)| format!("{z}/{x}/{y}")).collect::<Vec<_>>().join(",")
+/// Large incompressible tiles (sources with `big`): payload sizes just below / above 64 KiB and 1 MiB, ~1.2 MiB and
+/// 2 MiB – size-dependent shortcuts in the response path tend to sit at such round sizes (seeded regression C05-4:
+/// blobs whose stored size exceeds 1 MiB skipped `optimize_compression`, and with it the Accept-Encoding header).
+const BIG_TILES: [(u8, u32, u32); 6] = [(4, 0, 0), (4, 1, 0), (4, 2, 0), (4, 3, 0), (4, 4, 0), (4, 5, 0)];
+const BIG_SIZES: [usize; 6] = [65536 - 600, 65536 + 600, 1048576 - 4000, 1048576 + 4000, 1258291, 2097152];
+
+fn big_payload(c: (u8, u32, u32)) -> &'static Vec<u8> {
+	static CACHE: std::sync::OnceLock<Vec<Vec<u8>>> = std::sync::OnceLock::new();
+	let all = CACHE.get_or_init(|| {
+		BIG_SIZES
+			.iter()
+			.enumerate()
+			.map(|(i, n)| {
+				// cheap incompressible bytes (xorshift), deterministic per tile
+				let mut st: u64 = 0x9E3779B97F4A7C15 ^ (i as u64 + 1).wrapping_mul(0xD1B54A32D192ED03);
+				let mut v = Vec::with_capacity(*n + 8);
+				while v.len() < *n {
+					st ^= st << 13;
+					st ^= st >> 7;
+					st ^= st << 17;
+					v.extend_from_slice(&st.to_le_bytes());
+				}
+				v.truncate(*n);
+				v
+			})
+			.collect()
+	});
+	&all[BIG_TILES.iter().position(|t| *t == c).unwrap()]
+}
+
+fn coords_str(t: &[(u8, u32, u32)]) -> String {
+	t.iter().map(|(z, x, y)| format!("{z}/{x}/{y}")).collect::<Vec<_>>().join(",")
 }
 
 fn parse_format(s: &str) -> TileFormat {
@@ -58,10 +88,26 @@ struct SourceDef {
 	actual: TileCompression,
 	fmt: &'static str,
 	path: PathBuf,
+	/// holds BIG_TILES (large incompressible payloads) instead of TILES
+	big: bool,
 }
 impl SourceDef {
 	fn mislabelled(&self) -> bool {
 		self.comp != self.actual
+	}
+	fn tiles(&self) -> &'static [(u8, u32, u32)] {
+		if self.big {
+			&BIG_TILES
+		} else {
+			&TILES
+		}
+	}
+	fn payload(&self, c: (u8, u32, u32)) -> Vec<u8> {
+		if self.big {
+			big_payload(c).clone()
+		} else {
+			payload(self.fmt, c)
+		}
 	}
 }
 
@@ -114,14 +160,30 @@ fn source_defs(dir: &PathBuf, thorough: bool) -> Vec<SourceDef> {
 				format!("{}_{}_{}_really_{}", &container[..1], cname(comp), fmt, cname(actual))
 			};
 			let path = if container == "directory" { dir.join(format!("{id}_dir")) } else { dir.join(format!("{id}.{container}")) };
-			SourceDef { path, id, container, comp, actual, fmt }
+			SourceDef { path, id, container, comp, actual, fmt, big: false }
 		})
+		.chain(
+			// large tiles: one source per stored compression (+ one pmtiles), vector format so that nothing is "incompressible by MIME"
+			[("versatiles", Uncompressed), ("versatiles", Gzip), ("versatiles", Brotli), ("pmtiles", Gzip)].into_iter().map(|(container, comp)| {
+				let id = format!("big_{}_{}", &container[..1], cname(comp));
+				SourceDef { path: dir.join(format!("{id}.{container}")), id, container, comp, actual: comp, fmt: "pbf", big: true }
+			}),
+		)
 		.collect()
 }
 
 fn write_sources(defs: &[SourceDef], rt: &tokio::runtime::Runtime) {
 	for d in defs {
-		let tiles: Vec<((u8, u32, u32), Vec<u8>)> = TILES.iter().map(|c| (*c, indep_enc(d.actual, &payload(d.fmt, *c)))).collect();
+		let tiles: Vec<((u8, u32, u32), Vec<u8>)> = d
+			.tiles()
+			.iter()
+			.map(|c| {
+				let p = d.payload(*c);
+				// large blobs: cheapest encoder settings (the stored size is what matters)
+				let enc = if d.big && d.actual == TileCompression::Gzip { crate::c04::gz_enc(&p, 1) } else if d.big && d.actual == TileCompression::Brotli { crate::c04::br_enc(&p, 1, 22) } else { indep_enc(d.actual, &p) };
+				(*c, enc)
+			})
+			.collect();
 		let tj = TileJSON::try_from("{\"tilejson\":\"3.0.0\",\"name\":\"c05\"}").unwrap();
 		let mut reader = MemReader::new(parse_format(d.fmt), d.comp, tj, &tiles);
 		if d.container == "directory" {
@@ -488,7 +550,7 @@ fn do_request(out: &mut Out, cx: &Ctx, srv: &Server, d: &SourceDef, rest: &str, 
 		cname(d.comp),
 		srv.ovr.map_or("-", cname),
 		d.fmt,
-		tiles_str(),
+		coords_str(d.tiles()),
 		hex_or_tilde(accept),
 		hex(rest.as_bytes())
 	);
@@ -516,7 +578,7 @@ fn do_request(out: &mut Out, cx: &Ctx, srv: &Server, d: &SourceDef, rest: &str, 
 					Expect::Coord(z, x, y) => {
 						// which stored tile is served at (z,x,y)?  The server presents the container's tiles transformed:
 						// `--flip-y` counts rows from the other end, then `--swap-xy` exchanges the axes.
-						let stored = TILES.iter().find(|c| {
+						let stored = d.tiles().iter().find(|c| {
 							let n = 1u64 << c.0;
 							let (mut sx, mut sy) = (c.1 as u64, c.2 as u64);
 							if srv.flip {
@@ -543,7 +605,7 @@ fn do_request(out: &mut Out, cx: &Ctx, srv: &Server, d: &SourceDef, rest: &str, 
 										Some(_) => None,
 									};
 									out.oracle(
-										dec.as_ref() == Some(&payload(d.fmt, *c)),
+										dec.as_ref() == Some(&d.payload(*c)),
 										"C05 body is not the stored tile",
 										sig("body"),
 										detail(json!({"content_encoding": ce, "body_len": r.body.len(), "decoded_len": dec.as_ref().map(|d| d.len())})),
@@ -662,7 +724,7 @@ fn reader_case(out: &mut Out, d: &SourceDef, flip: bool, c: (u8, u32, u32), rt: 
 
 fn reader_out_of_range(out: &mut Out, defs: &[SourceDef], rt: &tokio::runtime::Runtime) {
 	let coords: Vec<(u8, u32, u32)> = vec![(0, 0, 1), (1, 0, 2), (1, 2, 0), (2, 1, 4), (3, 0, 8), (3, 7, u32::MAX), (5, 0, 32), (31, 0, u32::MAX), (3, u32::MAX, u32::MAX)];
-	for d in defs.iter().filter(|d| (d.fmt == "pbf" || d.fmt == "png") && !d.mislabelled() && matches!(d.container, "versatiles" | "pmtiles" | "mbtiles")) {
+	for d in defs.iter().filter(|d| (d.fmt == "pbf" || d.fmt == "png") && !d.big && !d.mislabelled() && matches!(d.container, "versatiles" | "pmtiles" | "mbtiles")) {
 		for flip in [false, true] {
 			if d.container != "mbtiles" && !flip {
 				continue; // plain versatiles/pmtiles lookups are covered over HTTP
@@ -752,9 +814,11 @@ fn unhex_str(s: &str) -> String {
 }
 
 pub fn run(args: &Args) {
-	quiet_panics();
+	if std::env::var("VTH_LOUD").is_err() {
+		quiet_panics();
+	}
 	let mut out = Out::new(&args.out);
-	out.rule = "raw HTTP/1.1 GET /tiles/<id>/<rest> against the freshly built `versatiles serve` in modes best / --fast / --flip-y / --swap-xy / both, and --override-input-compression {uncompressed,gzip,brotli} alone and combined with --flip-y / --swap-xy, over versatiles, pmtiles (3 stored compressions × pbf/png), tar, directory, mbtiles (pbf.gz, png), the other media types, and MISLABELLED sources (stored bytes encoded differently from what the container declares, served with the matching override); <rest> classes: stored, in-range absent, out-of-range x/y (2^z, 2^z+1, 2^32-1 …), deep zoom, z>31 / overflowing numbers, non-numeric, non-canonical (+, leading zeros, empty segments, extra parts), short / empty-segment-only paths; Accept-Encoding absent / empty / * / ordered subsets of {gzip,br,deflate,identity,zstd} in lower, upper, mixed case with positive weights; plus the whole decision table of optimize_compression (3 inputs × 8 allowed sets × 3 goals × valid/empty/truncated blob); non-trivial = a 200 response, an out-of-range or short path, or an optimize case with a valid blob and 'Uncompressed' allowed; distinct by case text".into();
+	out.rule = "raw HTTP/1.1 GET /tiles/<id>/<rest> against the freshly built `versatiles serve` in modes best / --fast / --flip-y / --swap-xy / both, and --override-input-compression {uncompressed,gzip,brotli} alone and combined with --flip-y / --swap-xy, over versatiles, pmtiles (3 stored compressions × pbf/png), tar, directory, mbtiles (pbf.gz, png), the other media types, LARGE incompressible tiles (stored sizes just below/above 64 KiB and 1 MiB, 1.2 MiB, 2 MiB; uncompressed, gzip, brotli) requested with absent / identity / gzip / br / 'deflate, zstd' / 'gzip, br' in best and --fast mode, and MISLABELLED sources (stored bytes encoded differently from what the container declares, served with the matching override); <rest> classes: stored, in-range absent, out-of-range x/y (2^z, 2^z+1, 2^32-1 …), deep zoom, z>31 / overflowing numbers, non-numeric, non-canonical (+, leading zeros, empty segments, extra parts), short / empty-segment-only paths; Accept-Encoding absent / empty / * / ordered subsets of {gzip,br,deflate,identity,zstd} in lower, upper, mixed case with positive weights; plus the whole decision table of optimize_compression (3 inputs × 8 allowed sets × 3 goals × valid/empty/truncated blob); non-trivial = a 200 response, an out-of-range or short path, or an optimize case with a valid blob and 'Uncompressed' allowed; distinct by case text".into();
 	let rt = runtime();
 	let dir = args.out.join("c05");
 	std::fs::create_dir_all(&dir).unwrap();
@@ -766,7 +830,8 @@ pub fn run(args: &Args) {
 		std::process::exit(3);
 	}
 	// server instances.  Correctly labelled sources: best / --fast serve all of them, the transforming instances a subset.
-	let good: Vec<SourceDef> = defs.iter().filter(|d| !d.mislabelled()).cloned().collect();
+	let good: Vec<SourceDef> = defs.iter().filter(|d| !d.mislabelled() && !d.big).cloned().collect();
+	let bigs: Vec<SourceDef> = defs.iter().filter(|d| d.big).cloned().collect();
 	let sub: Vec<SourceDef> = good.iter().filter(|d| (d.fmt == "pbf" || d.fmt == "png") && (d.container == "mbtiles" || d.comp == TileCompression::Gzip)).cloned().collect();
 	let mut servers = vec![
 		start_server(&bin, &good, false, false, false, None, &dir),
@@ -778,7 +843,7 @@ pub fn run(args: &Args) {
 	// `--override-input-compression X` alone and combined with --flip-y / --swap-xy: every source whose bytes really
 	// are X-encoded, whatever its container declares (the mislabelled ones plus the correctly labelled pbf ones)
 	for x in COMPS {
-		let pool: Vec<SourceDef> = defs.iter().filter(|d| d.actual == x && (d.mislabelled() || (d.fmt == "pbf" && d.container != "mbtiles"))).cloned().collect();
+		let pool: Vec<SourceDef> = defs.iter().filter(|d| !d.big && d.actual == x && (d.mislabelled() || (d.fmt == "pbf" && d.container != "mbtiles"))).cloned().collect();
 		servers.push(start_server(&bin, &pool, false, false, false, Some(x), &dir));
 		servers.push(start_server(&bin, &pool, false, true, false, Some(x), &dir));
 		servers.push(start_server(&bin, &pool, true, false, true, Some(x), &dir));
@@ -787,6 +852,11 @@ pub fn run(args: &Args) {
 			servers.push(start_server(&bin, &pool, true, false, false, Some(x), &dir));
 		}
 	}
+	// two instances (best, --fast) that serve only the large tiles; kept at the END of the list, the general request
+	// loops below run over `servers[..n_general]`
+	let n_general = servers.len();
+	servers.push(start_server(&bin, &bigs, false, false, false, None, &dir));
+	servers.push(start_server(&bin, &bigs, true, false, false, None, &dir));
 	let cx = Ctx { servers: &servers, defs: &defs };
 
 	if let Some(p) = &args.replay {
@@ -868,7 +938,7 @@ pub fn run(args: &Args) {
 		(Some("gzip, deflate, br".into()), vec!["gzip".into(), "deflate".into(), "br".into()]),
 		(Some("identity".into()), vec!["identity".into()]),
 	];
-	for srv in &servers {
+	for srv in &servers[..n_general] {
 		for d in srv.defs.iter() {
 			for (i, (rest, exp, class)) in fixed_paths.iter().enumerate() {
 				for (j, (acc, listed)) in fixed_accept.iter().enumerate() {
@@ -887,7 +957,7 @@ pub fn run(args: &Args) {
 		let srv = &servers[match rng.below(10) {
 			0..=2 => 0,
 			3..=5 => 1,
-			_ => rng.range(2, servers.len() as u64 - 1) as usize,
+			_ => rng.range(2, n_general as u64 - 1) as usize,
 		}];
 		let d = rng.pick(&srv.defs);
 		let (rest, exp, class) = gen_rest(&mut rng);
@@ -896,7 +966,35 @@ pub fn run(args: &Args) {
 		do_request(&mut out, &cx, srv, d, &rest, &acc, Some((exp, listed)), class);
 	}
 	// E. requests outside the model's alphabet (oracle only)
-	odd_requests(&mut out, &servers);
+	odd_requests(&mut out, &servers[..n_general]);
+	// F. large tiles: every size class × every header class × both modes.  The decision must not depend on the size.
+	{
+		let headers: Vec<(Option<String>, Vec<String>)> = vec![
+			(None, vec![]),
+			(Some("identity".into()), vec!["identity".into()]),
+			(Some("gzip".into()), vec!["gzip".into()]),
+			(Some("br".into()), vec!["br".into()]),
+			(Some("deflate, zstd".into()), vec!["deflate".into(), "zstd".into()]),
+			(Some("gzip, br".into()), vec!["gzip".into(), "br".into()]),
+		];
+		for srv in &servers[n_general..] {
+			for d in srv.defs.iter() {
+				for (ti, c) in d.tiles().iter().enumerate() {
+					for (hi, (acc, listed)) in headers.iter().enumerate() {
+						// best mode + `br` offered + not stored as brotli ⇒ the server brotli-compresses (quality 10) the whole
+						// blob: seconds for the > 1 MiB classes.  Quick tier: do that once per source, thorough: always.
+						let server_compresses_brotli = !srv.fast && listed.iter().any(|l| l == "br") && d.comp != TileCompression::Brotli;
+						if server_compresses_brotli && ti >= 2 && !(args.thorough() || (ti == 3 && hi == 3 && d.container == "versatiles" && d.comp == TileCompression::Gzip)) {
+							continue;
+						}
+						let rest = format!("{}/{}/{}", c.0, c.1, c.2);
+						do_request(&mut out, &cx, srv, d, &rest, acc, Some((Expect::Coord(c.0 as u64, c.1 as u64, c.2 as u64), listed.clone())), "big_tile");
+						out.count(&format!("big_tile_{}", BIG_SIZES[ti]));
+					}
+				}
+			}
+		}
+	}
 	// the servers must have survived everything
 	let mut servers = servers;
 	for s in servers.iter_mut() {
